@@ -205,6 +205,44 @@ def run_cases(build, driver, cases, timeout_s=10, isolate=False):
     return out
 
 
+def valgrind_pass(cases, timeout_s):
+    """runs the cases in an unsanitised harness under valgrind memcheck, one process per chunk; a chunk with an error report is
+    bisected to the case; returns result dicts with verdict `violation crash valgrind …` or `ok valgrind`"""
+    plain = build_repo.ensure_build("plain")
+    env = dict(os.environ, VHARNESS_NOASLR="1")
+
+    def run_chunk(chunk):
+        inp = "\n".join(f"{i} {c}" for i, c in enumerate(chunk)) + "\n"
+        try:
+            p = subprocess.run(["valgrind", "-q", "--error-exitcode=9", "--child-silent-after-fork=no", "--trace-children=no",
+                                plain["harness"], str(20 * timeout_s), str(60)], input=inp, stdout=subprocess.PIPE,
+                               stderr=subprocess.PIPE, text=True, timeout=3600, env=env)
+            return p.returncode, p.stderr
+        except subprocess.TimeoutExpired:
+            return 0, ""
+
+    def bisect(chunk):
+        if len(chunk) == 1:
+            rc, err = run_chunk(chunk)
+            if rc == 9:
+                first = (re.findall(r"==\d+== ([A-Z][^\n]*)", err) or ["valgrind error"])[0]
+                where = (re.findall(r"==\d+==\s+(?:at|by) 0x[0-9A-F]+: ([^\n]*)", err) or [""])[:3]
+                return [dict(case=chunk[0], result="CRASH valgrind " + first, verdict="violation crash valgrind: " + first + " @ " + " < ".join(where))]
+            return [dict(case=chunk[0], result="valgrind clean", verdict="ok valgrind")]
+        rc, err = run_chunk(chunk)
+        if rc != 9:
+            return [dict(case=c, result="valgrind clean", verdict="ok valgrind") for c in chunk]
+        mid = len(chunk) // 2
+        return bisect(chunk[:mid]) + bisect(chunk[mid:])
+
+    chunks = [cases[i::NWORKERS] for i in range(NWORKERS)]
+    out = []
+    with cf.ThreadPoolExecutor(max_workers=NWORKERS) as ex:
+        for rs in ex.map(bisect, [c for c in chunks if c]):
+            out += rs
+    return out
+
+
 # ------------------------------------------------------------------------------------------ shrinking
 def finding_class(verdict):
     """stable identifier of a finding: first finding's leading words without numbers"""
@@ -334,6 +372,11 @@ def main():
             enum_desc, enum_cases = e
     cases = corpus + enum_cases + gen_cases
     results = run_cases(build, driver, cases, cfg.get("timeout", 10))
+
+    # C20 thorough: a valgrind-memcheck pass (uninitialised values, invalid reads the sanitizers' redzones miss) of an
+    # unsanitised build over the corpus and a sample of every kind
+    if cfg.get("only_crashes") and tier == "thorough":
+        results += valgrind_pass(corpus + gen_cases[:: max(1, len(gen_cases) // 400)], cfg.get("timeout", 10))
 
     known = load_known()
     violations, knowns, errors = [], [], []
